@@ -186,3 +186,30 @@ Qed.
 Lemma write_read_out st st2 a b n x : x < a \/ a + n <= x ->
   write st a (read st2 b n) x = st x.
 Proof. intros H. apply write_out. rewrite read_length. lia. Qed.
+
+(** precise behaviour of a send loop on a capacity-1 buffer: nothing moves when
+    it is occupied, something moves when it is free and the list is not empty *)
+Lemma send_all_full {T} (inj : T -> pmsg) out (l : list T) :
+  can_push out = false -> Forall (fun x => send_valid (inj x) = true) l ->
+  send_all inj out l = (out, l, false, false).
+Proof.
+  intros Hc. induction l as [|x l IH]; intros Hv; [reflexivity|].
+  inversion Hv; subst. cbn [send_all]. rewrite H1, Hc. cbn [negb]. rewrite IH; auto.
+Qed.
+
+Lemma send_all_some {T} (inj : T -> pmsg) out (l : list T) :
+  can_push out = true -> l <> [] -> Forall (fun x => send_valid (inj x) = true) l ->
+  exists mv kept p,
+    Permutation (map inj l) (map inj mv ++ map inj kept) /\
+    length l = (length mv + length kept)%nat /\ mv <> [] /\
+    send_all inj out l = (out ++ map inj mv, kept, p, false).
+Proof.
+  intros Hc Hne Hv. destruct l as [|x l]; [congruence|].
+  inversion Hv; subst. cbn [send_all]. rewrite H1, Hc. cbn [negb].
+  destruct (send_all_spec inj l (out ++ [inj x]) H2) as (mv & kept & p & Hp & Hlen & E). rewrite E.
+  exists (x :: mv), kept, true. split; [cbn; auto|]. split; [cbn; lia|]. split; [discriminate|].
+  cbn. rewrite <- app_assoc. reflexivity.
+Qed.
+
+Lemma can_push_nil b : can_push b = true <-> b = [].
+Proof. unfold can_push, PCAP. destruct b; cbn; split; auto; discriminate. Qed.
